@@ -659,11 +659,80 @@ def clone_block(stmts: list[ast.stmt]) -> list[ast.stmt]:
     return [clone(s) for s in stmts]
 
 
+def _strip_tail_continue(stmts: list[ast.stmt]) -> list[ast.stmt]:
+    """`continue` as the last thing a loop iteration does is a no-op."""
+    if not stmts:
+        return stmts
+    last = stmts[-1]
+    if isinstance(last, ast.Continue):
+        return _strip_tail_continue(stmts[:-1])
+    if isinstance(last, ast.If):
+        last.body = _strip_tail_continue(last.body) or [ast.Pass()]
+        last.orelse = _strip_tail_continue(last.orelse)
+        if all(isinstance(x, ast.Pass) for x in last.body) and not last.orelse:
+            return _strip_tail_continue(stmts[:-1])
+    return stmts
+
+
+def _loops_to_comprehensions(stmts: list[ast.stmt]) -> list[ast.stmt]:
+    """`xs = []` ... `for v in it: [temps;] xs.append(e)`  ==  `xs = [e for v in it]` (nothing touches xs in between)."""
+    out: list[ast.stmt] = []
+    for st in stmts:
+        for field in ("body", "orelse", "finalbody"):
+            sub = getattr(st, field, None)
+            if isinstance(sub, list) and sub and isinstance(sub[0], ast.stmt) and not isinstance(st, (ast.FunctionDef, ast.ClassDef)):
+                setattr(st, field, _loops_to_comprehensions(sub))
+        if isinstance(st, ast.Try):
+            for h in st.handlers:
+                h.body = _loops_to_comprehensions(h.body)
+        if isinstance(st, ast.For) and not st.orelse and st.body and isinstance(st.body[-1], ast.Expr) and isinstance(st.body[-1].value, ast.Call):
+            call = st.body[-1].value
+            if isinstance(call.func, ast.Attribute) and call.func.attr == "append" and isinstance(call.func.value, ast.Name) and len(call.args) == 1 \
+                    and not call.keywords and all(isinstance(b, ast.Assign) and len(b.targets) == 1 and isinstance(b.targets[0], ast.Name) for b in st.body[:-1]):
+                name = call.func.value.id
+                # find the initialisation `name = []` earlier in this block with no mention of `name` in between
+                idx = None
+                for j in range(len(out) - 1, -1, -1):
+                    o = out[j]
+                    if isinstance(o, ast.Assign) and len(o.targets) == 1 and isinstance(o.targets[0], ast.Name) and o.targets[0].id == name and \
+                            ((isinstance(o.value, ast.List) and not o.value.elts) or (isinstance(o.value, ast.Call) and dotted(o.value.func) == "list" and not o.value.args)):
+                        idx = j
+                        break
+                    if any(isinstance(n, ast.Name) and n.id == name for n in ast.walk(o)):
+                        break
+                mentions_in_loop = sum(1 for b in st.body for n in ast.walk(b) if isinstance(n, ast.Name) and n.id == name)
+                temps = {b.targets[0].id: b.value for b in st.body[:-1]}
+                if idx is not None and mentions_in_loop == 1 and len(temps) == len(st.body) - 1:
+                    elt = clone(call.args[0])
+                    for _ in range(len(temps) + 1):
+                        class S(ast.NodeTransformer):
+                            def visit_Name(self, node):  # noqa: N802
+                                if isinstance(node.ctx, ast.Load) and node.id in temps:
+                                    return clone(temps[node.id])
+                                return node
+                        elt = S().visit(elt)
+                    comp = ast.ListComp(elt=elt, generators=[ast.comprehension(target=clone(st.target), iter=clone(st.iter), ifs=[], is_async=0)])
+                    out[idx] = ast.copy_location(ast.Assign(targets=[ast.Name(id=name, ctx=ast.Store())], value=comp), out[idx])
+                    ast.fix_missing_locations(out[idx])
+                    continue
+        out.append(st)
+    return out
+
+
+def _normalise_loops(stmts: list[ast.stmt]) -> list[ast.stmt]:
+    for st in stmts:
+        for n in ast.walk(st):
+            if isinstance(n, (ast.For, ast.While)):
+                n.body = _strip_tail_continue(n.body) or [ast.Pass()]
+    return stmts
+
+
 class Signature:
     def __init__(self, fn_node: ast.FunctionDef, roles: list[str] | None, lenient: bool = False):
         self.lenient = lenient
         fn = _strip(fn_node)
-        fn.body = normalise_control(fn.body) or [ast.Pass()]
+        fn.body = _loops_to_comprehensions(fn.body)
+        fn.body = _normalise_loops(normalise_control(fn.body) or [ast.Pass()])
         ast.fix_missing_locations(fn)
         params = [a.arg for a in fn.args.args]
         self.nparams = len(params)
